@@ -69,6 +69,8 @@ import Gribi.Gen.FlNWithEncapsulateHeader
 import Gribi.Gen.FlNWithElectionID
 import Gribi.Gen.FlNOpProto
 import Gribi.Gen.FlNEntryProto
+import Gribi.Gen.FlNewGet
+import Gribi.Gen.FlNewFlush
 import Gribi.Gen.FlGetAllNetworkInstances
 import Gribi.Gen.FlGetWithNetworkInstance
 import Gribi.Gen.FlGetWithAFT
@@ -736,6 +738,30 @@ theorem gen_constructors :
 theorem gen_constructors_translated :
     Gen.flNewIPv4Entry_problem = none ∧ Gen.flNewIPv6Entry_problem = none ∧ Gen.flNewLabelEntry_problem = none ∧
     Gen.flNewNextHopGroupEntry_problem = none := ⟨rfl, rfl, rfl, rfl⟩
+
+/-- `c.Get()` / `c.Flush()` start from an empty request **every time they are called** (the
+generated definitions take no state: nothing of an earlier chain can be in what they return) -/
+theorem gen_request_constructors :
+    Gen.flNewGet = some { pb := { NetworkInstance := none, Aft := AFTType_INVALID } } ∧
+    Gen.flNewFlush = some { pb := { Election := none, NetworkInstance := none } } ∧
+    Gen.flNewGet_problem = none ∧ Gen.flNewFlush_problem = none := ⟨rfl, rfl, rfl, rfl⟩
+
+/-- a Get chain without an instance call names no instance; one without `WithAFT` names no table -/
+theorem gen_get_unset (cs : List GGetCall) :
+    ((∀ c ∈ cs, ∃ a, c = .aft a) →
+      (cs.foldl runGet { NetworkInstance := none, Aft := AFTType_INVALID }).NetworkInstance = none) ∧
+    ((∀ c ∈ cs, ∀ a, c ≠ .aft a) →
+      (cs.foldl runGet { NetworkInstance := none, Aft := AFTType_INVALID }).Aft = AFTType_INVALID) := by
+  constructor
+  · intro h
+    exact (fold_frame runGet (fun t => t.NetworkInstance) cs _ (by
+      intro c hc t; obtain ⟨a, rfl⟩ := h c hc; rfl)).trans rfl
+  · intro h
+    exact (fold_frame runGet (fun t => t.Aft) cs _ (by
+      intro c hc t
+      cases c with
+      | aft a => exact absurd rfl (h _ hc a)
+      | _ => rfl)).trans rfl
 
 theorem gen_builders_translated :
     Gen.fl4WithPrefix_problem = none ∧ Gen.fl4WithNetworkInstance_problem = none ∧ Gen.fl4WithNextHopGroup_problem = none ∧
